@@ -15,6 +15,8 @@ BTabX == IF TH THEN BTabT ELSE BTab
 HTabX == IF TH THEN HTabT ELSE HTab
 PTabX == IF TH THEN PTabT ELSE PTab
 MTabX == IF TH THEN MTabT ELSE MTab
+CTabX == IF TH THEN CTabT ELSE CTab
+JTabX == IF TH THEN JTabT ELSE JTab
 Rec == ndJsonDeserialize(IOEnv.TRACE)
 VARIABLE l
 Ev == Rec[l]
@@ -62,13 +64,13 @@ Rule == /\ Ev.res = "Ok"
                                 /\ Cmp(Mul(AbsDiff(Ev.outq, a.outq), Pow2(IF Ev.ft = "f64" THEN 38 ELSE 16)), a.outq) <= 0
              \* Cheng BB / BC (Beta<f64>): for the first uniform u1 the value returned is the table's (2^-44 of 1) and the accepting
              \* second uniform words are a prefix of the relative length the documented tests give (2^-36)
-             [] Ev.op = "cheng" -> LET a == CTab[Ev.case].us[Ev.i] IN
+             [] Ev.op = "cheng" -> LET a == CTabX[Ev.case].us[Ev.i] IN
                                    /\ Ev.accepted_at_zero
                                    /\ Near14(Ev.T, a.frac, 64 - 36)
                                    /\ Near14(Ev.xq, a.xq, 60 - 44)
              \* Zipf<f64> / Zeta<f64>: for the first word the proposal is the table's x (where it is below 2^53) and the accepting second
              \* uniform words are a prefix of the documented relative length (2^-40)
-             [] Ev.op = "rej64" -> LET a == JTab[Ev.case].us[Ev.i] IN
+             [] Ev.op = "rej64" -> LET a == JTabX[Ev.case].us[Ev.i] IN
                                    /\ Ev.accepted_at_zero
                                    /\ (a.x # "-1") => (Ev.x = a.x)
                                    /\ Near14(Ev.T, a.frac, 64 - 40)
